@@ -71,6 +71,7 @@ def run(ctx):
     cg = CallGraph([lib])
     r1(ctx, lib, cg)
     r2(ctx, lib)
+    r2_stages(ctx, lib)
     r3(ctx, lib, cg)
     r4(ctx, lib, cg)
     from .common import run_mandatory
@@ -168,6 +169,49 @@ def r2(ctx, lib):
                 ctx.violation(rule, fn + '|silent-kinds', b.where(cmp.line), 'errors of kind %s are dropped silently too' % other)
         ctx.check(ok_some and err_none and logs, rule, fn, cs[0].where(), 'Ok -> Some, Err -> warning%s -> None' % (' (silent only for NotFound)' if nf else ''),
                   'Ok->Some=%s, Err->None=%s, Err logs=%s' % (ok_some, err_none, logs))
+
+
+def r2_stages(ctx, lib):
+    """in every stage the hash closure yields None whenever the hash could not be computed"""
+    rule = 'C15.R2'
+    from .c01 import hash_closure_of
+    n = 0
+    for st in ('group_transformed', 'group_by_prefix', 'group_by_suffix', 'group_by_contents'):
+        b, rh, hc = hash_closure_of(lib, st)
+        if hc is None:
+            ctx.missing(rule, 'hash closure of ' + st)
+            continue
+        hf = hc.calls(r'hash_file_or_log_err$|hash_transformed_or_log_err$')
+        if not hf:
+            ctx.missing(rule, 'hash call in the closure of ' + st, hc.where())
+            continue
+        n += 1
+        ctx.fn(hc)
+        H = hf[0]
+        rs = backslice(hc, [0])
+        # the returned Option is the call result itself or its Option::map; no Some(..) is built on the None side
+        via_map = [c for c in hc.calls(r'Option(::)?<.*>::(map|and_then)$') if H in backslice(hc, [c.args[0]]).calls]
+        direct = H.dest[0] == 0 or (H in rs.calls and not [c for c in rs.calls if c.matches(r'unwrap_or|or_else|Option(::)?<.*>::or$|get_or_insert|map_or')])
+        somes = aggregates(hc, 'option::Option', 'Some')
+        # a Some built in this closure must be dominated by the Some-arm of a match on the hash result
+        bad_some = []
+        if somes:
+            for bi, s_ in somes:
+                ok_arm = False
+                for (bbx, idx, what) in hc.operand_uses(H.dest[0]):
+                    if what[0] == 'stmt' and what[1]['rv']['k'] == 'disc' and not what[1]['rv']['p'][1]:
+                        for (b2, i2, w2) in hc.operand_uses(what[1]['p'][0]):
+                            if w2[0] == 'switch':
+                                m = dict(zip(w2[1]['vals'], w2[1]['tgts']))
+                                some_t = m.get(1, w2[1]['tgts'][-1])
+                                if hc.dominates(some_t, bi):
+                                    ok_arm = True
+                if not ok_arm:
+                    bad_some.append(bi)
+        good = direct and not bad_some and (H.dest[0] == 0 or via_map or H in rs.calls)
+        ctx.check(good, rule, '%s|none-stays-none' % hc.path, H.where(), '%s: a failed hash stays None (the file leaves the stage)' % st,
+                  '%s: when the hash cannot be computed the closure still yields Some(..): a file that was not read completely stays in the group under its old key and can be reported' % st)
+    ctx.floor(rule, 'stage hash closures', n, 4)
 
 
 EXC_R3 = [
